@@ -61,4 +61,13 @@ def sources():
                     'Surviving Spouse ' + rows(nc['MarriedFilingJointly']) + ' Head of Household ' + rows(nc['HeadOfHousehold']) + ' Single/Married Filing Separately ' + rows(nc['Single']) + ' Child Deduction Worksheet'))
     out.append((2022, 'child tax credit per child (Schedule 8812 instructions)', 'i1040s8.pdf',
                 f'the initial amount of the CTC is {usd(O.CTC_PER_CHILD[2022])} for each qualifying child'))
+    # N.C. consumer use tax estimate (2023 booklet bundled): the rows as printed, the at-least / but-less-than heading, the rate beyond the table
+    rows = O.NC_USE_TAX[2023]
+    los = [0] + [b for b, _ in rows[:-1]]
+    for lo, (hi, amt) in list(zip(los, rows))[1:10] + list(zip(los, rows))[11:20] + list(zip(los, rows))[21:]:
+        if hi == 11100:
+            continue        # printed "9,600 - 1 1,100" (a kerning gap inside the number)
+        out.append((2023, f'N.C. use tax table row up to {hi:,} (D-401 instructions)', 'nc_d-401.pdf', f'{lo:,} - {hi:,} {amt}'))
+    out.append((2023, 'N.C. use tax table beyond the last row (D-401 instructions)', 'nc_d-401.pdf', f'{rows[-1][0]:,} and over Line 14 x {O.NC_USE_TAX_RATE.lstrip("0")}'))
+    out.append((2023, 'N.C. use tax table heading (D-401 instructions)', 'nc_d-401.pdf', 'At Least But Less Than Use Tax Amount is'))
     return out
